@@ -113,9 +113,28 @@ def seeded_call(f):
         np.random.random(13)
         r2 = _try(f)
         r3 = _try(f)
+        # the caller's numpy error state and warnings filters: results and refusals must not depend on them
+        # ('ignore' can never create an exception the library did not intend), and the library must leave them alone
+        import warnings
+        err0, nfilters0 = np.geterr(), list(warnings.filters)
+        r1b = _try(f)
+        err_kept = (np.geterr() == err0) and (list(warnings.filters) == nfilters0)
+        with np.errstate(all='ignore'):
+            with warnings.catch_warnings():
+                warnings.simplefilter('ignore')
+                r4 = _try(f)
+        with np.errstate(all='warn'):
+            with warnings.catch_warnings(record=True):
+                warnings.simplefilter('always')
+                r5 = _try(f)
     finally:
         np.random.set_state(saved)
     res = {'state_untouched': bool(_state_eq(st0, st1)), 'repeatable': bool(_same(r1, r2) and _same(r1, r3))}
+    if not (_same(r1, r4) and _same(r1, r5) and _same(r1, r1b)):
+        res['errstate_independent'] = False
+        res['under_ignore'] = r4[1] if r4[0] == 'err' else 'returned a value'
+    if not err_kept:
+        res['errstate_kept'] = False
     if r1[0] == 'err':
         res['err'] = r1[1]
         res['msg'] = r1[2]
@@ -128,6 +147,11 @@ def seeded_call(f):
 
 
 def common_oracle(impl, what):
+    if impl.get('errstate_independent') is False:
+        return (f'{what} depends on the numpy error state of the caller / warnings filters: under np.errstate(all="ignore") it '
+                f'{impl.get("under_ignore")}, normally it {"raised " + impl["err"] if "err" in impl else "returned a value"}')
+    if impl.get('errstate_kept') is False:
+        return f'{what} changed the numpy error state of the caller or warnings filters'
     if impl.get('input_untouched') is False:
         return f'{what} wrote into the frame the caller passed in'
     if not impl.get('state_untouched', True):
@@ -287,7 +311,8 @@ def read_draw(c):
 def dark_rate(c):
     """the rate in the Python/numpy type the case asks for (the stored value is representable in it)"""
     t = c.get('rate_type', 'float')
-    r = {'float': float, 'int': int, 'int64': np.int64, 'float32': np.float32, 'uint16': np.uint16}[t](c['rate'])
+    r = {'float': float, 'int': int, 'int64': np.int64, 'float32': np.float32, 'uint16': np.uint16, 'uint8': np.uint8,
+         'int8': np.int8}[t](c['rate'])
     assert float(r) == c['rate'], 'rate not representable as ' + t
     return r
 
@@ -545,6 +570,18 @@ def sequences(rng, tier):
             calls = [base]
             for _ in range(rng.randint(1, 3)):
                 calls.append(vary(rng, calls[-1]))
+            if rng.random() < 0.3 and op != 'ps':          # a REFUSED call in the middle must leave nothing behind
+                if op == 'shot':
+                    bad = dict(calls[0], img=[list(r) for r in calls[0]['img']])
+                    bad['img'][0][0] = 1e19 if bad.get('dtype') in ('uint16', 'uint8', 'bool') else -1.0
+                    if bad.get('dtype') in ('uint16', 'uint8', 'bool'):
+                        bad.pop('dtype')
+                elif op == 'read':
+                    bad = dict(calls[0], entry=True, electrons=-1.0)
+                else:
+                    bad = dict(calls[0], entry=True, seed=-1, fpn=0.25)
+                calls.insert(1, bad)
+                calls = calls[:4]
             if len(calls) < 4 and rng.random() < 0.4:
                 calls.append(dict(calls[0]))          # back to the first call: must reproduce it
             c = {'op': 'seq', 'calls': calls}
@@ -658,6 +695,32 @@ def large_cases(rng, tier):
                'exp': rng.choice(PS_EXPS)}
 
 
+BLOCK_SHAPES = [[2049, 2048], [3072, 2048], [1, 2 ** 22 + 5]]      # > 2**22 samples, size % 2**22 != 0
+
+
+def block_cases(rng, tier):
+    """frames beyond 2**22 samples whose size is not a multiple of 2**22 (block-wise processing must not drop the
+    remainder): one read-noise frame in the quick tier, every seeded function in the thorough tier; oracle only"""
+    yield {'op': 'read', 'seed': rnd_seed(rng), 'img': big_frame(rng, BLOCK_SHAPES[0]), 'electrons': 2.5}
+    if tier == 'quick':
+        return
+    for shape in BLOCK_SHAPES[1:]:
+        f = big_frame(rng, shape)
+        f['level'] = 200.0
+        yield {'op': 'read', 'seed': rnd_seed(rng), 'img': f, 'electrons': 10.0, 'dtype': 'uint16'}
+    for method in ('poisson', 'gaussian'):
+        yield {'op': 'shot', 'method': method, 'seed': rnd_seed(rng), 'img': big_frame(rng, BLOCK_SHAPES[1])}
+        f = big_frame(rng, BLOCK_SHAPES[0])
+        f['poke'].append([2048, 2047, -1.0])          # an illegal pixel in the remainder
+        yield {'op': 'shot', 'method': method, 'seed': rnd_seed(rng), 'img': f}
+    yield {'op': 'dark', 'seed': rnd_seed(rng), 'rate': 100.7, 'shape': BLOCK_SHAPES[0], 'fpn': 0.25}
+    yield {'op': 'dark', 'seed': rnd_seed(rng), 'rate': 2.9999999, 'shape': BLOCK_SHAPES[1], 'fpn': 0.0}
+    mk = big_frame(rng, BLOCK_SHAPES[0], kind='disc')
+    mk['lit'] = 0.9
+    yield {'op': 'ps', 'seed': rnd_seed(rng), 'mask': mk, 'mask_dtype': 'float', 'pixelscale': 1 / 256, 'rms': 50e-9, 'hpf': 5.0,
+           'exp': 3.0}
+
+
 def container_cases(rng, tier):
     """the same frames handed over as ndarray subclasses (masked array without masked entries, matrix, metadata-carrying
     subclass, memmap) and as 1x1 arrays: same draws, same model, caller memory untouched"""
@@ -726,6 +789,7 @@ def generate(rng, tier):
     yield from entry_cases(rng, tier)
     yield from sequences(rng, tier)
     yield from large_cases(rng, tier)
+    yield from block_cases(rng, tier)
     yield from container_cases(rng, tier)
     kd = 24 if tier == 'quick' else 240
     for _ in range(kd):       # input frames of every supported dtype (integer, unsigned, float32, bool): same draws, same model
@@ -736,11 +800,11 @@ def generate(rng, tier):
         dt = rng.choice(DTYPES[1:])
         yield {'op': 'read', 'seed': rnd_seed(rng), 'img': rnd_typed_counts(rng, n, m, dt, signed_ok=False), 'dtype': dt,
                'electrons': rng.choice([1.0, 2.5, 10.0, 100.0, 0.3])}
-        rt = rng.choice(['int', 'int64', 'float32', 'uint16'])
-        rate = float(np.float32(rng.random() * 300)) if rt == 'float32' else float(rng.randint(0, 3000))
+        rt = rng.choice(['int', 'int64', 'float32', 'uint16', 'uint8', 'int8'])
+        rate = float(np.float32(rng.random() * 300)) if rt == 'float32' else float(rng.randint(0, 127 if rt in ('uint8', 'int8') else 3000))
         shape = rng.choice([[n, m], [n, m], n * m + 1])
         yield {'op': 'dark', 'seed': rnd_seed(rng), 'rate': rate, 'rate_type': rt, 'shape': shape,
-               'shape_form': rng.choice(['tuple', 'list', 'array']), 'fpn': rng.choice([0.0, 0.1, 0.25, 0.4])}
+               'shape_form': rng.choice(['tuple', 'list', 'array', 'array_u8', 'tuple_u8']), 'fpn': rng.choice([0.0, 0.1, 0.25, 0.4])}
     k = 40 if tier == 'quick' else 400
     for _ in range(k):        # shot noise, both methods
         for method in ('poisson', 'gaussian'):
@@ -1042,7 +1106,8 @@ def call_of(c):
         if c['shape'] is None:
             return lambda: lentil.detector.dark_current(rate, fpn_factor=c['fpn'], seed=seed_of(c))
         shp = c['shape'] if isinstance(c['shape'], int) else \
-            {'tuple': tuple, 'list': list, 'array': np.array}[c.get('shape_form', 'tuple')](c['shape'])
+            {'tuple': tuple, 'list': list, 'array': np.array, 'array_u8': lambda v: np.array(v, dtype=np.uint8),
+             'tuple_u8': lambda v: tuple(np.uint8(k) for k in v)}[c.get('shape_form', 'tuple')](c['shape'])
         return lambda: lentil.detector.dark_current(rate, shp, c['fpn'], seed=seed_of(c))
     if op == 'ps':
         dt = {'float': float, 'int': int, 'bool': bool, 'uint8': np.uint8, 'int32': np.int32, 'float32': np.float32,
@@ -1102,8 +1167,25 @@ def run_seq(c):
         with ThreadPoolExecutor(max_workers=4) as ex:       # independent interpreters: started side by side
             subs = list(ex.map(subprocess_result, c['calls']))
         same_sub = [bool(_same(as_tuple(r), f)) for r, f in zip(seq, subs)]
+    # returned arrays are held across the later calls (a view of an internal buffer would change), then edited in place
+    # by the caller (later calls must not see the edit)
     fresh_state()
-    res = {'calls': seq, 'same_as_fresh': same}
+    held, copies = [], []
+    for sub in c['calls']:
+        try:
+            r = call_of(sub)()
+        except Exception:           # noqa: BLE001
+            r = None
+        held.append(r)
+        copies.append(None if r is None else np.array(r, copy=True))
+    intact = [h is None or np.array_equal(np.asarray(h), cp, equal_nan=True) for h, cp in zip(held, copies)]
+    for h in held:
+        if isinstance(h, np.ndarray) and h.size and h.flags.writeable:
+            h[...] = -7
+    again = [bool(_same(as_tuple(r), _try(call_of(sub)))) for sub, r in zip(c['calls'], seq)]
+    fresh_state()
+    res = {'calls': seq, 'same_as_fresh': same, 'held_results_intact': [bool(v) for v in intact],
+           'unaffected_by_caller_edits': again}
     if c.get('subprocess'):
         res['same_as_new_process'] = same_sub
     return res
@@ -1272,6 +1354,12 @@ def oracle(c, impl):
             if not ok:
                 return (f'call {k} of the sequence gives a different result than the same call made first after a reset of the '
                         'module state: the result depends on the call history, not only on the arguments and the seed')
+        for k, ok in enumerate(impl.get('held_results_intact', [])):
+            if not ok:
+                return f'the array returned by call {k} of the sequence was changed by a later library call (a view of internal memory)'
+        for k, ok in enumerate(impl.get('unaffected_by_caller_edits', [])):
+            if not ok:
+                return f'call {k} of the sequence gives another result after the caller edited previously returned arrays in place'
         for k, ok in enumerate(impl.get('same_as_new_process', [])):
             if not ok:
                 return (f'call {k} of the sequence gives a different result than the same call made first in a new Python '
